@@ -17,18 +17,11 @@ def disjoint_classes(rep):
 
 def fromstr_delegation(prog, rep, crate, ty):
     fs = [n for n, b in prog.bodies.items() if b.get('impl') and b['impl']['self_ty'].split('::')[-1] == ty and 'str::FromStr' in b['impl']['trait'] and n.endswith('::from_str') and n.startswith(crate)]
-    fb = entry.find_method(prog, crate, ty, 'from_bytes')
-    pl = entry.find_fn(prog, crate, 'parse_locale')
+    core, disp = c13.parsers(prog)
     for fn in fs:
-        e = pxm.PX(prog, opaque=set(fb) | set(pl))
-        segs = e.explore(fn)
-        ok = bool(segs)
-        for s in segs:
-            calls = [ev for ev in s.state.events if ev[0] == 'call' and ev[1] in set(fb) | set(pl)]
-            if len(calls) != 1 or terms.access_path(calls[0][2][0]) != (1, ()):
-                ok = False
-        rep.ob('fromstr:%s' % ty, 'PAIR-FROMSTR', fn, prog.bodies[fn]['span'], 'FromStr for %s parses the bytes of the whole string with the same parser as from_bytes' % ty, ok,
-               detail='returns %s' % [e.short(s.ret, 160) for s in segs][:2])
+        bad, npaths = c13.wiring_paths(prog, fn, 0 if ty == 'LanguageIdentifier' else 1, core, disp)
+        rep.ob('fromstr:%s' % ty, 'PAIR-FROMSTR', fn, prog.bodies[fn]['span'], 'FromStr for %s parses the bytes of the whole string with the same parser as from_bytes' % ty, not bad,
+               detail='\n'.join(bad[:4]), how='%d paths' % npaths)
     return len(fs)
 
 
